@@ -240,14 +240,15 @@ func DuplicateStmtError(pos token.Position, msg string) error {
 	return fmt.Errorf("duplicate declaration: %s %s", pos.String(), msg)
 }
 
-// escapeTabs protects the tabs of s from the tabwriter (see tabwriter.Escape); the outermost
-// writer strips the escape characters again.
+// escapeTabs protects the characters of s that the tabwriter reads as layout -- a tab or a vertical
+// tab ends a cell, a form feed ends a line -- from the tabwriter (see tabwriter.Escape); the
+// outermost writer strips the escape characters again.
 func escapeTabs(s string) string {
-	if !strings.Contains(s, "\t") {
+	if !strings.ContainsAny(s, "\t\v\f") {
 		return s
 	}
 	esc := string([]byte{tabwriter.Escape})
-	return strings.ReplaceAll(s, "\t", esc+"\t"+esc)
+	return strings.NewReplacer("\t", esc+"\t"+esc, "\v", esc+"\v"+esc, "\f", esc+"\f"+esc).Replace(s)
 }
 
 func peekOne(list []string) string {
